@@ -102,6 +102,12 @@ CONTROLS = [
         '                if let WhiteSpace::Space(_) = x {', '                if let WhiteSpace::Space(_) | WhiteSpace::Newline(_) = x {', 1)]),
     ('x3-merge-base-in-chars', 'X3', 'syn', 'PreprocessedText:merge', [(PPF,
         '        let base = self.text.len();\n        self.text.push_str(&other.text);', '        let base = self.text.chars().count();\n        self.text.push_str(&other.text);', 1)]),
+    ('x13-paren-appended-after-rescan', 'X13', 'syn', 'expansion-text-modified-after-rescan', [(PPF,
+        '            if let Some(paren) = paren {\n                replaced.push_str(&paren);\n            }\n\n', '', 1),
+        (PPF, '            Ok(Some((\n                String::from(replaced.text()),\n                text.origin.clone(),',
+         '            let mut replaced = String::from(replaced.text());\n            if let Some(paren) = paren {\n                replaced.push_str(&paren);\n            }\n            Ok(Some((\n                replaced,\n                text.origin.clone(),', 1)]),
+    ('g22-star-run-guarded', 'G22', 'syn', 'block_comment:greedy-run-before-closer', [(PARSER + 'general/comments.rs',
+        'terminated(tag("*"), peek(not(tag("/")))),', 'terminated(is_a("*"), peek(not(tag("/")))),', 1)]),
     ('x11-include-unguarded', 'X11', 'syn', 'open-unguarded', [(PPF, 'NodeEvent::Enter(RefNode::IncludeCompilerDirective(x)) if !ignore_include => {', 'NodeEvent::Enter(RefNode::IncludeCompilerDirective(x)) => {', 1)]),
     ('x12-search-reversed', 'X12', 'syn', 'search-order', [(PPF, '                    for include_path in include_paths {', '                    for include_path in include_paths.iter().rev() {', 1)]),
     ('p2-utf8-error-without-path', 'P2', 'syn', 'read-error', [(PPF, 'Err(Error::ReadUtf8(PathBuf::from(path.as_ref())))', 'Err(Error::ReadUtf8(PathBuf::new()))', 1)]),
